@@ -123,6 +123,15 @@ class _Fn:
             return "(%s %s %s)" % (op, self.expr(n.left), self.expr(n.comparators[0]))
         if isinstance(n, ast.UnaryOp) and isinstance(n.op, ast.Not):
             return "(ENot %s)" % self.expr(n.operand)
+        if isinstance(n, ast.BoolOp):
+            op = {ast.And: "EAnd", ast.Or: "EOr"}.get(type(n.op))
+            if op is None:
+                _fail(n, "unknown boolean operator")
+            parts = [self.expr(v) for v in n.values]
+            out = parts[-1]
+            for p in reversed(parts[:-1]):
+                out = "(%s %s %s)" % (op, p, out)
+            return out
         _fail(n, "unsupported expression")
 
     @staticmethod
